@@ -209,7 +209,43 @@ class Unit:
                     self.items.append(it)
                 except (LostAnchor, L.LexError) as e:
                     self.lost.append(str(e))
+        self._auto_consts(srcs)
         return self.items
+
+    def _auto_consts(self, srcs):
+        """R21: a module-level `const` of the same file that an extracted function mentions and that neither the unit's
+        item list nor its prelude defines is extracted as well (mechanically, verbatim), so that introducing or renaming
+        a constant does not by itself lose the proof."""
+        pre = ""
+        for inc in self.cfg.get("includes", []):
+            try: pre += open(os.path.join(VERIF, "units", inc)).read()
+            except OSError: pass
+        try: pre += open(os.path.join(self.dir, "prelude.rs")).read()
+        except OSError: pass
+        have = {it.name for it in self.items if it.kind not in ("fn", "method")}
+        added = []
+        for it in list(self.items):
+            if it.kind not in ("fn", "method", "closure") or it.file not in srcs:
+                continue
+            src, m = srcs[it.file]
+            try:
+                mt = L.mask(it.text)
+            except L.LexError:
+                continue
+            for nm in sorted(set(re.findall(r"(?<![\w:])[A-Z][A-Z0-9_]{2,}\b", mt))):
+                if nm in have or re.search(r"\b(const|static)\s+%s\b" % nm, pre):
+                    continue
+                try:
+                    c = find_item(src, m, "const " + nm, it.file)
+                except (LostAnchor, L.LexError):
+                    continue
+                c.opts = {}
+                c.src_opts = it.src_opts
+                have.add(nm)
+                added.append(c)
+                self._count("R21", 1)
+        self.items = added + self.items
+        self.auto_items = ["%s: const %s" % (c.file, c.name) for c in added]
 
     # ---- rewriting ----
     def _count(self, rule, n):
@@ -225,8 +261,8 @@ class Unit:
         if "R1" in enabled:
             t, n = R.r1_strip_attrs_comments(t, keep)
             self._count("R1", n)
-        for r in ("R2", "R5", "R4", "R6", "R16", "R17", "R3", "R10", "R15", "R18", "R18b", "R20"):
-            if r in enabled:
+        for r in ("R2", "R5", "R4", "R6", "R16", "R17", "R17b", "R3", "R10", "R15", "R18", "R18b", "R20"):
+            if r in enabled or (r == "R17b" and "R17" in enabled):
                 t, n = R.RULES[r](t)
                 self._count(r, n)
         if "R12" in enabled:
